@@ -476,7 +476,10 @@ theorem restart_hooksUp (c : C) : (restart c).hooksUp = c.hooksUp := by
   unfold restart; exact (startInLoop_keeps _).2.2.2.1
 
 theorem stopInLoop_hooksUp (c : C) : (stopInLoop c).hooksUp = c.hooksUp := by
-  unfold stopInLoop die
+  refine Eq.trans ?_ (cancelIf_hooksUp (decide (stopCancelsRetryTimer c.cConnect)) c)
+  show (stopInLoopCore _).hooksUp = _
+  generalize cancelIf (decide (stopCancelsRetryTimer c.cConnect)) c = c
+  unfold stopInLoopCore die
   repeat' split
   all_goals first | rfl | exact retry_hooksUp _ _
 
@@ -640,5 +643,13 @@ theorem connect_marks (c : C) (w : Who) (hd : c.dead = false) (hal : c.clientAli
     rw [← hc1] at h ⊢
     exact h
   · simp only; exact List.prefix_refl _
+
+/-- a fold whose steps all do nothing -/
+theorem foldl_fix {α β : Type} (f : α → β → α) (l : List β) (c : α) (h : ∀ c, ∀ t ∈ l, f c t = c) : l.foldl f c = c := by
+  induction l generalizing c with
+  | nil => rfl
+  | cons t l ih =>
+    rw [List.foldl_cons, h c t List.mem_cons_self]
+    exact ih c (fun c t' ht' => h c t' (List.mem_cons_of_mem _ ht'))
 
 end MuduoVerif.Client
